@@ -1,5 +1,5 @@
 CONSTANTS MaxIn = 2  MaxOut = 2
           CoinSet = {"BTC", "BCH", "BTG", "GRS"}
-          ScenarioIds = {1, 3, 4, 5, 8, 12}
+          ScenarioIds = {1, 3, 4, 5, 8, 12, 13, 14}  FewHtIds = {13, 14}
 SPECIFICATION Spec
 CHECK_DEADLOCK FALSE
